@@ -223,7 +223,15 @@ pub fn record(output: &str) {
         // (one call in four passes the very joint vector of the preceding call to another robot and frame)
         if k % 4 == 3 { q = last_q; }
         last_q = q;
-        let prev: Joints = std::array::from_fn(|i| q[i] + r.gen_range(-0.05..0.05));
+        // previous joints: next to the taught point, or - one call in three - somewhere else altogether: another
+        // solution of the same pose, wound up by a turn in J4 / J6 (the answers are ordered by closeness to THEM)
+        let mut prev: Joints = std::array::from_fn(|i| q[i] + r.gen_range(-0.05..0.05));
+        if k % 3 == 1 {
+            let others = guarded(|| robot.kin.inverse(&robot.ofk(&q).to_na())).unwrap_or_default();
+            if !others.is_empty() { prev = others[r.gen_range(0..others.len())]; }
+            prev[3] += 2.0 * std::f64::consts::PI * r.gen_range(-1..=1) as f64;
+            prev[5] += 2.0 * std::f64::consts::PI * r.gen_range(-1..=1) as f64;
+        }
         let Some((sols, pose)) = guarded(|| framed.forward_transformed(&q, &prev)) else {
             out.put(json!({"ev": "ftrans", "outcome": "panic"}));
             continue;
